@@ -1561,3 +1561,64 @@ func (g *G) RepeatedContextualTuple(m *rm.Model) []Request {
 	}
 	return nil
 }
+
+// WideExclusion is a directed shape: one subject in a few hundred groups whose membership is an
+// exclusion over a set operation (member: ([user] or admin) but not blocked), and documents shared
+// with those groups' members. The strategies that stream object ids in batches (weight two,
+// recursive) then move several batches of more than a hundred ids; the default strategy does not.
+func (g *G) WideExclusion() (*rm.Model, []rm.Tuple, []Request) {
+	this := &rm.Rewrite{Kind: rm.This}
+	usr := []rm.Restriction{{Type: "user"}}
+	group := &rm.TypeDef{Name: "group", Relations: []*rm.Relation{
+		{Name: "admin", Rewrite: this, Restrictions: usr},
+		{Name: "blocked", Rewrite: this, Restrictions: usr},
+		{Name: "member", Restrictions: usr, Rewrite: &rm.Rewrite{Kind: rm.Difference, Children: []*rm.Rewrite{
+			{Kind: rm.Union, Children: []*rm.Rewrite{this, {Kind: rm.Computed, Relation: "admin"}}},
+			{Kind: rm.Computed, Relation: "blocked"}}}},
+	}}
+	doc := &rm.TypeDef{Name: "doc", Relations: []*rm.Relation{
+		{Name: "viewer", Rewrite: this, Restrictions: []rm.Restriction{{Type: "group", Relation: "member"}}}}}
+	m := &rm.Model{Types: []*rm.TypeDef{{Name: "user"}, group, doc}}
+	n := 210 + g.Intn(120)
+	u := "user:" + Pick(g, userIDs)
+	var tuples []rm.Tuple
+	for i := 0; i < n; i++ {
+		gi := fmt.Sprintf("group:g%03d", i)
+		if g.Chance(0.85) {
+			tuples = append(tuples, rm.Tuple{Obj: gi, Rel: "member", User: u})
+		} else {
+			tuples = append(tuples, rm.Tuple{Obj: gi, Rel: "admin", User: u})
+		}
+	}
+	for i := 0; i < 1+g.Intn(3); i++ {
+		tuples = append(tuples, rm.Tuple{Obj: fmt.Sprintf("group:g%03d", g.Intn(4)), Rel: "blocked", User: u})
+	}
+	seen := map[string]bool{}
+	var uniq []rm.Tuple
+	for _, t := range tuples {
+		if !seen[t.Key()] {
+			seen[t.Key()] = true
+			uniq = append(uniq, t)
+		}
+	}
+	tuples = uniq
+	var reqs []Request
+	for i := 0; i < 8; i++ {
+		k := g.Intn(n)
+		if i < 3 {
+			k = g.Intn(6) // near the blocked ones
+		}
+		d := fmt.Sprintf("doc:d%03d", k)
+		tuples = append(tuples, rm.Tuple{Obj: d, Rel: "viewer", User: fmt.Sprintf("group:g%03d#member", k)})
+		reqs = append(reqs, Request{Kind: "check", Obj: d, Rel: "viewer", User: u})
+	}
+	seen = map[string]bool{}
+	uniq = nil
+	for _, t := range tuples {
+		if !seen[t.Key()] {
+			seen[t.Key()] = true
+			uniq = append(uniq, t)
+		}
+	}
+	return m, uniq, reqs
+}
